@@ -817,6 +817,12 @@ int hwloc_bitmap_from_ulongs(struct hwloc_bitmap_s *set, unsigned nr, const unsi
 
 	HWLOC__BITMAP_CHECK(set);
 
+	if (!nr) {
+		/* nothing to copy, and we cannot reset to 0 ulongs */
+		hwloc_bitmap_zero(set);
+		return 0;
+	}
+
 	if (hwloc_bitmap_reset_by_ulongs(set, nr) < 0)
 		return -1;
 
